@@ -62,10 +62,18 @@ void family( std::string const& tname, int step, int bq = 2, int bt = 3 )
         p.threads = { t1, { { DEL, 5, 0 }, { INS, 15, 0 }, { INS, 12, 0 }, { DEL, 15, 0 } } };
         g_scen.push_back( make_scenario<A>( base, p, SetCfg( 2, std::vector<int>{ 0, 5, 9, 10, 12, 15, 20 } ), 0, 1, 2 ));
     };
+    // the same hazard with two emptied nodes in front of a key: the new key must not be stored behind a larger one
+    auto aba2 = [&]( bool with_iter ) {
+        Program p; p.name = "aba-two-empty-nodes";
+        p.prefix = { { INS, 7, 0 }, { INS, 8, 0 }, { INS, 10, 0 }, { DEL, 7, 0 }, { DEL, 8, 0 } };
+        TProg t1 = { { INS, 5, 0 }, { HAS, 5, 0 } }; if ( with_iter ) t1.push_back( POp{ ITER, 0, 0 } );
+        p.threads = { t1, { { INS_F, 7, 71 }, { INS, 6, 0 }, { DEL, 7, 0 } } };
+        g_scen.push_back( make_scenario<A>( base, p, SetCfg( 2, std::vector<int>{ 0, 5, 6, 7, 8, 10 } ), 0, 1, 2 ));
+    };
     if ( vh::property() == "C19" ) {
         if ( Caps::safe_iter::value ) {
             add_iter_programs<A, Caps>( g_scen, base, { 0, 2, 4, 6, 5 }, { 0, 1, 2, 3, 4, 5, 6, 7 }, bq, bt );     // the new key 5 goes between 4 and 6
-            aba( true );
+            aba( true ); aba2( true );
         }
         return;
     }
@@ -81,7 +89,7 @@ void family( std::string const& tname, int step, int bq = 2, int bt = 3 )
     }
     if ( Caps::has_unlink::value )
         add_unlink_programs<A>( g_scen, base, { 0, 1, 2, 3 }, std::vector<int>(), step, bq, bt );
-    if ( del ) aba( false );
+    if ( del ) { aba( false ); if ( Caps::has_ins_f::value ) aba2( false ); }
 }
 
 #if FAMILY == 1
